@@ -77,7 +77,8 @@ def jobs(tier):
         ntied = sum(1 for a in range(3) for b in range(a + 1, 3) if W[a] == W[b])
         if ntied <= 1 or tier == 'thorough':
             add('tmp', (1, 1, 1), W, 'plain', 900 if ntied <= 1 else 3000, 100 + 300 * ntied)
-        if ntied == 0 or W in ((0, 0, 1), (1, 0, 0), (1, 0, 1)) or tier == 'thorough':
+        # TM full pairing, all three tied (27+ guard outcomes per pair): exhausts 3000 s on the clean tree - not registered (DESIGN 11)
+        if ntied == 0 or W in ((0, 0, 1), (1, 0, 0), (1, 0, 1)) or (tier == 'thorough' and W != (0, 0, 0)):
             add('tmf', (1, 1, 1), W, 'plain', 900 if ntied <= 1 else 3000, 150 + 400 * ntied)
     add('tmp', (2, 1, 1), (1, 0, 2), 'plain', 900, 200)
     add('tmf', (1, 2, 1), (2, 1, 0), 'plain', 900, 300)
